@@ -113,7 +113,7 @@ func runOptFamily(c *runCtx) error {
 				hangErr = fmt.Errorf("case %d: hang: wait", k)
 			}
 		}
-		switch kind := r.intn(11); kind {
+		switch kind := r.intn(12); kind {
 		case 0, 1, 2: // what a finished bar shows
 			name = "final"
 			which := r.intn(5)  // 0 OnComplete(msg) 1 ClearOnComplete 2 OnAbort(msg) 3 ClearOnAbort 4 both messages
@@ -468,6 +468,54 @@ func runOptFamily(c *runCtx) error {
 					fail("after the context was cancelled the last frame of a container of %d bars shows %d of them running (round %d)", nb, n, round)
 				}
 			}
+		case 10: // an output that is not a terminal has no height: the library takes the width for it (80 columns when no
+			// width was requested), so a container of fewer bars than that shows every one of them in every frame
+			name = "manybars"
+			width := 0
+			eff := 80
+			if r.chance(2, 3) {
+				width = 81 + r.intn(60)
+				eff = width
+			}
+			nb := eff - 1 - r.intn(12)
+			cases.WriteString(fmt.Sprintf("H %d %d %d\n", k, width, nb))
+			o := newOptCtl(width)
+			var bs []*mpb.Bar
+			for i := 0; i < nb; i++ {
+				bs = append(bs, o.p.AddBar(100, mpb.PrependDecorators(decor.Name(fmt.Sprintf("<B%03d>", i)))))
+			}
+			for round := 0; round < 2 && len(bad) == 0; round++ {
+				for i, b := range bs {
+					b.IncrBy(1 + i%5)
+				}
+				if err := o.frame(); err != nil {
+					hangErr = fmt.Errorf("case %d: %v", k, err)
+					break
+				}
+				seen := map[string]int{}
+				for _, row := range o.buf.lastRows() {
+					if i := strings.Index(row, "<B"); i >= 0 && len(row) >= i+6 {
+						seen[row[i:i+6]]++
+					}
+				}
+				var missing []string
+				for i := 0; i < nb; i++ {
+					switch n := seen[fmt.Sprintf("<B%03d>", i)]; {
+					case n == 0:
+						missing = append(missing, fmt.Sprintf("%d", i))
+					case n > 1:
+						fail("bar %d is drawn %d times in one frame", i, n)
+					}
+				}
+				if len(missing) > 0 {
+					fail("a container of %d one-row bars on a non-terminal output of width %d (0: the default, 80) draws %d of them in frame %d; missing: %s",
+						nb, width, len(seen), round+1, strings.Join(missing, ","))
+				}
+			}
+			for _, b := range bs {
+				b.Abort(false)
+			}
+			waitP(o.p)
 		default: // WithWaitGroup: Wait first waits for the user's group
 			name = "waitgroup"
 			var wg sync.WaitGroup
